@@ -9,9 +9,16 @@
  *    first dimension, random valid and invalid SDwritedata/SDreaddata (start/stride/count), SDend/SDstart
  *    cycles; a shadow n-d array in this file is the reference.  Failure keys: sd-read-data, sd-fill,
  *    sd-invalid-accepted, sd-valid-rejected, sd-extent, sd-modified-outside.
+ *  C (unit level, every case): the static NCvcmaxcontig on random shape/origin/edges, see case_maxcontig.
+ *    Failure keys: sd-maxcontig-range, sd-maxcontig-notwhole.
  */
 #include "mfhdf.h"
 #include "hk.h"
+
+/* the static NCvcmaxcontig is reached by #include of putget.c (resolved through -I<REPO>, vk.cc_harness); the library's own
+ * putget.o is then not pulled from libmfhdf.a, so SDwritedata/SDreaddata below run the same text */
+#define PUTGET_C "mfhdf/src/putget.c"
+#include PUTGET_C
 
 #define MAXRANK 5
 #define MAXCELLS 20000
@@ -392,9 +399,60 @@ out:
     free(s.data); free(s.written);
 }
 
+/* ---------------------------------------------------------------- case C: NCvcmaxcontig at unit level
+ *   T sd maxcontig <shape> <origin> <edges> <recsize> <len> => <index into edges>|null
+ * shape[0] = 0 is a record variable; origins are valid coordinates (what NCcoordck lets through); edges are whole, partial, empty or
+ * too long by 1..3; now and then one dimension is moved up by 2^62 (unsigned long arithmetic).  h4model answers with `Slab.maxContig`
+ * and also runs the function body TRANSLATED from the current putget.c (Tie A, function level) on the same arguments. */
+static void print_ul(const unsigned long *v, int n)
+{
+    for (int i = 0; i < n; i++) printf(i ? ",%lu" : "%lu", v[i]);
+}
+
+static void case_maxcontig(void)
+{
+    int reps = (int)hk_range(1, 3);
+    for (int rep = 0; rep < reps; rep++) {
+        int rank = (int)hk_range(1, 5);
+        unsigned long shape[MAXRANK];
+        long origin[MAXRANK], edges[MAXRANK];
+        int rec = hk_chance(30), bad = hk_chance(30) ? (int)hk_range(0, rank - 1) : -1, big = hk_chance(10) ? (int)hk_range(0, rank - 1) : -1;
+        for (int i = 0; i < rank; i++) {
+            shape[i] = (unsigned long)hk_range(1, 6);
+            if (i == 0 && rec) { shape[0] = 0; origin[0] = hk_range(0, 5); edges[0] = hk_range(0, 4); continue; }
+            if (hk_chance(50)) { origin[i] = 0; edges[i] = (long)shape[i]; }
+            else {
+                origin[i] = hk_range(0, (long)shape[i] - 1);
+                edges[i] = hk_range(hk_chance(15) ? 0 : 1, (long)shape[i] - origin[i]);
+            }
+            if (i == bad) edges[i] = (long)shape[i] - origin[i] + hk_range(1, 3);
+            if (i == big) { shape[i] += 1UL << 62; if (hk_chance(60)) edges[i] += 1L << 62; }
+        }
+        NC handle; NC_var var; NC_iarray assoc;
+        memset(&handle, 0, sizeof handle); memset(&var, 0, sizeof var); memset(&assoc, 0, sizeof assoc);
+        handle.recsize = (unsigned long)hk_range(0, 12);
+        var.len = (unsigned long)hk_range(0, 12);
+        var.shape = shape; var.assoc = &assoc; assoc.count = (unsigned)rank;
+        const long *r = NCvcmaxcontig(&handle, &var, origin, edges);
+        printf("T sd maxcontig "); print_ul(shape, rank); printf(" "); print_ul((unsigned long *)origin, rank); printf(" ");
+        print_ul((unsigned long *)edges, rank); printf(" %lu %lu => ", handle.recsize, var.len);
+        if (r == NULL) printf("null\n"); else printf("%ld\n", (long)(r - edges));
+        /* implementation-side oracle: the answer is a pointer into edges (or one past it), at or after boundary, and everything
+         * after it is taken whole */
+        if (r != NULL) {
+            long kx = (long)(r - edges);
+            if (kx < 0 || kx > rank) hk_fail("sd-maxcontig-range", "index %ld rank %d", kx, rank);
+            else for (int i = (int)kx + 1; i < rank; i++)
+                if ((unsigned long)edges[i] != shape[i]) hk_fail("sd-maxcontig-notwhole", "index %ld: dimension %d is not taken whole", kx, i);
+        }
+        hk_stat(r == NULL ? "maxcontig_null" : "maxcontig_index", 1);
+    }
+}
+
 static void run_case(int k)
 {
     if (k % 3 == 0) case_placement(k); else case_array(k);
+    case_maxcontig(); /* after the older kinds: their random streams stay what they were */
 }
 
 int main(int argc, char **argv) { extern int H4_ncopts; H4_ncopts = getenv("HK_DEBUG") ? 2 : 0; return hk_main(argc, argv, "sd"); }
